@@ -452,7 +452,7 @@ def run(chk):
 
     # ---- behaviours
     lines = []
-    pick_sc, pick = gen_pick(chk.seed, 90 if quick else 500)
+    pick_sc, pick = gen_pick(chk.seed, 70 if quick else 500)
     try:
         gens = [("Gen_Pipeline_q1", None), ("Gen_Pipeline_q1ss", None), ("Gen_Pipeline_q1tp", None), ("Gen_Pipeline_q2", pick), ("Gen_Pipeline_q3", pick)]
         if not quick:
@@ -980,6 +980,71 @@ def e2e_level(chk, lines, quick, rnd):
     chk.cov["e2e"] = {"cases": len(cases), "hangs_ignored": hangs}
     if hangs > max(3, len(cases) // 5):
         raise vlib.Infra("%d of %d e2e queries did not answer in time" % (hangs, len(cases)))
+    e2e_meta_level(chk, binary, lines, quick, rnd)
+
+
+E2E_META_SPL = ['bin a', 'bin bins=5 a', 'bin bins=100 a', 'where a>0 | bin a', 'eval d=a+a | bin d', 'bin a | tail 2']
+
+
+def e2e_meta_level(chk, binary, lines, quick, rnd):
+    """two-pass commands whose per-row function is not in the model, end to end: the same rows ingested as ONE block and as
+    several blocks (one searcher batch per block with GOMAXPROCS=1) must give the same `* | <spl>`"""
+    tabs = {}
+    for b in lines:
+        if b["src"].endswith("q1tp") and len(b["table"]) == 3:
+            tabs.setdefault(rank_pattern(b["table"]), []).append(b)
+    order = []
+    for k in sorted(tabs):
+        rnd.shuffle(tabs[k])
+    while any(tabs.values()) and len(order) < (14 if quick else 60):
+        for k in sorted(tabs):
+            if tabs[k] and len(order) < (14 if quick else 60):
+                order.append(tabs[k].pop())
+    jobs = []
+    for ti, b in enumerate(order):
+        spl = E2E_META_SPL[ti % len(E2E_META_SPL)]
+        scale = SCALES[1 + ti % (len(SCALES) - 1)]
+        rows = [concrete_row(r, scale) for r in b["table"]]
+        n = len(rows)
+        multi = [sz for sz in b["chunkings"] if 0 not in sz and len(sz) >= 2]     # EVERY split of the rows into >= 2 blocks
+        if len(multi) > 4:
+            multi = rnd.sample(multi, 4)
+        for sz in multi:
+            jobs.append({"line": b, "spl": spl, "rows": rows, "sizes": [n], "layout": ["blk"], "gomaxprocs": 1, "ti": ti})
+            jobs.append({"line": b, "spl": spl, "rows": rows, "sizes": sz, "layout": ["blk"] * len(sz), "gomaxprocs": 1, "ti": ti})
+    # the single-block reference of a table is the same job several times: run it once
+    cache = {}
+
+    def run_job(c):
+        k = json.dumps([c["spl"], c["rows"], c["sizes"]])
+        if k not in cache:
+            cache[k] = e2e_case(binary, c)
+        return cache[k]
+    uniq = {json.dumps([c["spl"], c["rows"], c["sizes"]]): c for c in jobs}
+    for k, r in zip(uniq, vlib.pmap(lambda c: e2e_case(binary, c), list(uniq.values()), workers=6)):
+        cache[k] = r
+    res = [run_job(c) for c in jobs]
+    reported = set()
+    for i in range(0, len(jobs), 2):
+        ra, rb = res[i], res[i + 1]
+        if ra.get("hang") or rb.get("hang") or ra.get("died") or rb.get("died"):
+            continue
+        rows_a, ea = rows_of_response(ra["resp"], [])
+        rows_b, eb = rows_of_response(rb["resp"], [])
+        chk.replayed(1)
+        chk.count(("e2e-meta", jobs[i]["spl"], json.dumps(jobs[i]["rows"])), nontrivial=True, n=2)
+        if rows_a is None or rows_b is None:
+            continue
+        canon = lambda rr: [json.dumps(x, sort_keys=True) for x in rr]
+        if canon(rows_a) != canon(rows_b):
+            key = "C06:e2e-meta:%s:layout-dependent" % "+".join(p.strip().split()[0] for p in jobs[i]["spl"].split("|"))
+            if key in reported:
+                continue
+            reported.add(key)
+            chk.violation(key, "e2e `* | %s` over rows %s: ingested as one block the engine returns %s, as blocks %s it returns %s" % (
+                jobs[i]["spl"], jobs[i]["rows"], json.dumps(rows_a), jobs[i + 1]["sizes"], json.dumps(rows_b)),
+                {"kind": "e2e-meta", "spl": jobs[i]["spl"], "rows": jobs[i]["rows"], "sizes": jobs[i + 1]["sizes"]})
+    chk.cov["e2e_meta"] = {"pairs": len(jobs) // 2}
 
 
 def replay(chk, path):
